@@ -34,11 +34,12 @@ OBJ_MUT = re.compile(r"^(set_|reset|subtract_|low_pass$|high_pass$|add_|register
 LIST_MUT = {"clear", "append", "extend", "insert", "remove", "pop", "popitem", "update", "sort", "reverse", "setdefault"}
 COPYING = {"deepcopy", "copy", "get_values", "get_lower_limits", "get_upper_limits", "are_fixed", "get_mask", "to_dict", "to_string", "serialize", "get_label", "get_path",
            "get_name", "get_symbol", "get_units", "get_default_values", "get_num_points", "get_frequencies", "get_magnitudes", "get_phases", "to_dataframe", "to_sympy", "to_latex",
-           "len", "str", "repr", "float", "int", "bool", "isinstance", "type", "id", "hash", "generate_element_identifiers", "generate_fit_identifiers", "simulate_spectrum",
+           "len", "str", "repr", "float", "int", "bool", "isinstance", "type", "id", "hash", "simulate_spectrum",
            "get_bode_data", "get_nyquist_data", "array", "log", "angle", "abs", "ln", "min", "max", "sum", "is_fixed", "get_element_name", "get_impedances", "dict", "set", "zip", "enumerate", "range"}
-BAG_GETTERS = {"get_elements", "get_connections", "get_subcircuits", "values", "items", "keys", "to_stack", "_get_elements_recursive", "_get_all_items_recursive"}
+BAG_GETTERS = {"get_elements", "get_connections", "get_subcircuits", "values", "items", "keys", "to_stack", "_get_elements_recursive", "_get_all_items_recursive",
+               "generate_element_identifiers", "generate_fit_identifiers"}          # dicts keyed by the live elements
 BAG_WRAPPERS = {"list", "sorted", "reversed", "tuple", "filter", "iter"}
-KNOWN_NON_MUTATING = {"fit_circuit": "C12: _fit_process fits deepcopy(original_circuit)", "validate_circuit": "reads only", "_validate_circuit": "reads only"}
+KNOWN_NON_MUTATING = {"fit_circuit": "its own frame obligation below + C12: _fit_process fits deepcopy(original_circuit)"}
 FRESH, PART, BAG = "fresh", "part", "bag"
 
 
